@@ -176,3 +176,48 @@ for variant, updater, bound, other, cmp in (("min", "nucs/solvers/solver.py::dec
             ("C03.optimal", f"implies(result is not None and sol() and {IN_ROOT}, {SIG_OBJ} {cmp} result[variable_idx])"),
         ],
         tags={"C03": ["C03"], "wf": ["C16"], "C01": ["C03"], "C02": ["C03"], "C17": ["C03"]}, arities=[], timeout_ms=200000)
+
+# ------------------------------------------------------------------ acceptance (C01) through solve_one#acc: what is delivered satisfies every posted relation
+SOA = REG.contracts[BS + "solve_one#acc"]
+SOA.ensures = SOA.ensures + SO.ensures[-2:]
+SOA.result = "opt:i64[V]"
+SOA_REQ = [(l, selfify(c)) for l, c, _t in SOA.clauses("requires")]
+ACC_LOOP_INV = [x for x in SOA_REQ if x[0] not in dict(WF_STATIC) and x[0] not in ("C02.all_decision", "C01.fullmask")]
+ON_STACK_POINT = "forall(d, 0, D, trig(d) == d and sigma[d] == self.shr_domains_stack[self.stacks_top[0], d, MIN])"
+ALL_HOLD = "forall(p, 0, P, rel_holds(p))"
+
+
+def h_yield_acc(ex, st, node, args):
+    """yield solution: the delivered assignment is the point of the top level; if sigma is that point every posted relation holds on it"""
+    st.env["delivered"] = st.env["delivered"] + 1
+    ex.oblige(st, "assert", "C01.delivered_satisfies", ex.eval_spec(selfify(f"implies({ON_STACK_POINT}, {ALL_HOLD})"), st, {}), tags={"C01"}, line=node.lineno)
+
+
+def h_put_acc(ex, st, node, args):
+    h_put(ex, st, node, args)
+    if args[0][1] is not None:
+        ex.oblige(st, "assert", "C01.delivered_satisfies", ex.eval_spec(selfify(f"implies({ON_STACK_POINT}, {ALL_HOLD})"), st, {}), tags={"C01"}, line=node.lineno)
+
+
+for fn, types, env, ginit, am in (("solve", {"self": SELF_T}, {"yield": h_yield_acc}, {"delivered": 0}, ["delivered"]),
+                                  ("solve_and_queue", {"self": SELF_T, "processor_idx": "int", "solution_queue": "opaque"}, {"solution_queue.put": h_put_acc}, {"emitted": "emptylist"}, ["emitted"])):
+    contract(BS + "BacktrackSolver." + fn, variant="acc", types=types, result="none", props=["C01"],
+        requires=SOA_REQ, env=env, ghost_init=ginit, ghost={"sigma": "int[D]"}, defs=[selfify(V_DEF)],
+        calls={"solve_one": BS + "solve_one#acc"}, call_ghosts={"solve_one": {"sigma": "sigma", "lv0": "0"}},
+        loops={1: dict(fingerprint="while True", also_modifies=am, invariant=ACC_LOOP_INV)},
+        ensures=[], tags={"C01": ["C01"], "wf": ["C16"], "C02": ["C01"], "C17": ["C01"]}, arities=[], timeout_ms=200000)
+
+COVERED = ("wf.covered", "forall(d, 0, D, exists(v, 0, V, self.problem.dom_indices_arr[v] == trig(d)))")  # every shared domain is the domain of some variable
+IS_ASSIGNMENT = lambda x: f"forall(v, 0, V, {x}[v] == sigma[self.problem.dom_indices_arr[v]] + self.problem.dom_offsets_arr[v])"
+for variant, updater in (("min", "nucs/solvers/solver.py::decrease_max"), ("max", "nucs/solvers/solver.py::increase_min")):
+    base = REG.contracts[BS + "BacktrackSolver.optimize#" + variant]
+    lc = dict(base.loops[1])
+    lc["invariant"] = list(lc["invariant"]) + [x for x in ACC_LOOP_INV if x[0].startswith("C01.")] + [
+        ("C01.best_satisfies", f"implies(best_solution is not None and {IS_ASSIGNMENT('best_solution')}, {ALL_HOLD})")]
+    lc.pop("decreases", None)
+    contract(BS + "BacktrackSolver.optimize", variant=variant + "acc", types=base.types, result="none", props=["C01"],
+        requires=list(base.requires) + [x for x in SOA_REQ if x[0].startswith("C01.")] + [COVERED], ghost={"sigma": "int[D]"}, defs=[selfify(V_DEF)],
+        calls={"update_domain_fct": updater, "solve_one": BS + "solve_one#acc"}, call_ghosts={"solve_one": {"sigma": "sigma", "lv0": "0"}},
+        loops={1: lc},
+        ensures=[("C01.optimum_satisfies", f"implies(result is not None and {IS_ASSIGNMENT('result')}, {ALL_HOLD})")],
+        tags={"C01": ["C01"], "C03": ["C01"], "wf": ["C16"], "C02": ["C01"], "C17": ["C01"]}, arities=[], timeout_ms=200000)
